@@ -380,4 +380,57 @@ def legacyFanOut (md5 : Str → Str) (pdhReq : Str) (order : List (Str × Legacy
   | some m => .ok m
   | none => if outs.all legacyIs404 then .error 404 else .error 502
 
+
+/-! ## the whole delegate fetchRemoteCollectionByPDH (fed_collections.go:186-312) -/
+
+/-- what the local Rails API does with the proxied request -/
+inductive LegacyLocal where
+  | reply (r : LegacyReply)
+  | hang                           -- no answer until the client gives up
+deriving DecidableEq, Repr
+
+inductive LegacyFetch where
+  | unhandled                      -- the delegate declines: path is not a by-PDH collection path
+  | localRecord (mt field : Str)   -- local 200: forwarded verbatim, not hash-checked
+  | localStatus (code : Nat)       -- any other local status except 404: forwarded verbatim
+  | ok (mt : Str)                  -- a remote's response that rewriteSignatures accepted
+  | error (code : Nat)
+deriving DecidableEq, Repr
+
+/-- `collectionsByPDHRe` with one repetition of its group: `[0-9a-fA-F]{32}\+[0-9]+` to the end of
+the path (the regexp allows the group to repeat and then takes the last repetition; requests of
+that shape are outside the model and the generator) -/
+def isPDHPath (req : Str) : Bool :=
+  (req.take 32).length == 32 && (req.take 32).all isXDigit && (req.drop 32).head? == some '+'
+    && !(req.drop 33).isEmpty && (req.drop 33).all isDigit
+
+/-- local first (`filterLocalClusterResponse`: error ⇒ 502, 404 ⇒ search the federation, anything
+else is forwarded as it is); then the fan-out. `order` lists the remotes whose requests complete,
+in completion order; the others hang until the client gives up, after which only the errors
+collected so far count. -/
+def legacyFetchByPDH (md5 : Str → Str) (req : Str) (loc : LegacyLocal)
+    (order : List (Str × LegacyReply)) : LegacyFetch :=
+  if !isPDHPath req then .unhandled else
+  match loc with
+  | .hang => .error 502
+  | .reply .reqErr => .error 502
+  | .reply (.record mt f) => .localRecord mt f
+  | .reply (.status c) =>
+    if c = 404 then
+      match legacyFanOut md5 req order with
+      | .ok m => .ok m
+      | .error e => .error e
+    else .localStatus c
+
+/-- Does the client have to give up for the delegate to return? -/
+def legacyNeedsClientCancel (md5 : Str → Str) (req : Str) (loc : LegacyLocal)
+    (nRemotes : Nat) (order : List (Str × LegacyReply)) : Bool :=
+  isPDHPath req &&
+  match loc with
+  | .hang => true
+  | .reply (.status c) =>
+    decide (c = 404) && decide (order.length < nRemotes) &&
+      (match legacyFanOut md5 req order with | .ok _ => false | .error _ => true)
+  | _ => false
+
 end ArvVerif.C18
